@@ -8,7 +8,7 @@ from . import restricted_utc_time_from_datetime
 from . import restricted_generalized_time_to_datetime
 from . import restricted_generalized_time_from_datetime
 from .compiler import clean_bit_string_value
-from .ber import Class, DecodeTagError, StandardEncodeMixin
+from .ber import DecodeTagError, StandardEncodeMixin
 from .ber import check_decode_error
 from .ber import Encoding
 from .ber import Tag
@@ -38,12 +38,7 @@ from .ber import decode_real
 
 
 class Type(ber.StandardDecodeMixin, ber.Type):
-
-    def set_tag(self, number, flags):
-        if not Class.APPLICATION & flags:
-            flags |= Class.CONTEXT_SPECIFIC
-
-        super().set_tag(number, flags)
+    pass
 
 
 class StringType(StandardEncodeMixin, Type):
